@@ -41,12 +41,95 @@ fn own_difficulty(p: &Proof, height: u64, secondary_scaling: u32) -> u64 {
 	let mut w = [0u8; 8];
 	w.copy_from_slice(&h.as_bytes()[..8]);
 	let h64 = u64::from_be_bytes(w).max(1) as u128;
-	let scale = if p.edge_bits == SECOND_POW_EDGE_BITS { secondary_scaling as u64 } else { graph_weight(height, p.edge_bits) };
+	let scale = if p.edge_bits == SECOND_POW_EDGE_BITS { secondary_scaling as u64 } else { own_weight(global::base_edge_bits(), height, p.edge_bits) };
 	let d = ((scale as u128) << 64) / h64;
 	(d.min(u64::MAX as u128) as u64).max(1)
 }
 
-fn one_chain(chain: ChainTypes, seed: u64, reps: usize, events: &mut Vec<Value>, mism: &mut Vec<Value>) -> (u64, u64, u64) {
+/// GraphWeight of spec/Cuckoo.tla, written from the consensus rule (not from consensus::graph_weight):
+/// a graph of 2^eb edges weighs 2^(eb - base + 1) * eb; 31-bit graphs are phased out linearly over the
+/// 31 weeks that follow the first year (one bit of weight less at the start of every week, nothing left
+/// from week 31 on).
+pub fn own_weight(base: u8, height: u64, eb: u8) -> u64 {
+	const WEEK: u64 = 7 * 24 * 60;
+	const YEAR: u64 = 52 * WEEK;
+	let bits: u64 = if eb == 31 && height >= YEAR {
+		let weeks = (height - YEAR) / WEEK + 1;
+		if weeks >= 31 {
+			0
+		} else {
+			31 - weeks
+		}
+	} else {
+		eb as u64
+	};
+	(1u64 << (eb - base + 1)) * bits
+}
+
+fn weight_phase(height: u64, eb: u8) -> &'static str {
+	const WEEK: u64 = 7 * 24 * 60;
+	const YEAR: u64 = 52 * WEEK;
+	if eb != 31 {
+		"plain"
+	} else if height < YEAR {
+		"c31_before_expiry"
+	} else if height < YEAR + 30 * WEEK {
+		"c31_phasing_out"
+	} else {
+		"c31_expired"
+	}
+}
+
+/// heights around every step of the 31-bit phase-out, the usual ones, and very large ones
+fn weight_heights(rng: &mut StdRng) -> Vec<u64> {
+	const WEEK: u64 = 7 * 24 * 60;
+	const YEAR: u64 = 52 * WEEK;
+	let mut hs = vec![0u64, 1, 1000, 100_000, YEAR - 1, YEAR, YEAR + 1, (1u64 << 31) - 1, 1u64 << 40, u64::MAX - 1, u64::MAX];
+	for w in 1..=32u64 {
+		hs.push(YEAR + w * WEEK - 1);
+		hs.push(YEAR + w * WEEK);
+		hs.push(YEAR + (w - 1) * WEEK + rng.gen_range(1, WEEK - 1));
+	}
+	hs.push(rng.gen_range(0, YEAR));
+	hs.push(rng.gen_range(YEAR + 32 * WEEK, 4 * YEAR));
+	hs
+}
+
+/// consensus::graph_weight against GraphWeight: Rust comparison for every case, "Weight" events (the
+/// values that fit TLC's integers) decided by the trace specification
+fn weights(cname: &str, seed: u64, events: &mut Vec<Value>, mism: &mut Vec<Value>) -> u64 {
+	let mut s = [0u8; 32];
+	s[..8].copy_from_slice(&seed.to_le_bytes());
+	s[9] = 0x77;
+	let mut rng: StdRng = SeedableRng::from_seed(s);
+	let base = global::base_edge_bits();
+	let hs = weight_heights(&mut rng);
+	let mut n = 0;
+	for eb in base..=63u8 {
+		for &height in hs.iter() {
+			if eb != 31 && eb != 32 && eb != 30 && eb != base && (height % 7 != (eb as u64) % 7) {
+				continue; // every height for the edge bits around the rule, a sample for the others
+			}
+			n += 1;
+			let own = own_weight(base, height, eb);
+			match catch_unwind(AssertUnwindSafe(|| graph_weight(height, eb))) {
+				Err(_) => mism.push(json!({"what": format!("graph_weight:panic:eb={}:{}", eb, weight_phase(height, eb)), "chain": cname, "eb": eb, "height": height.to_string()})),
+				Ok(real) => {
+					if real != own {
+						mism.push(json!({"what": format!("graph_weight:eb={}:{}", if eb == 31 { "31" } else { "other" }, weight_phase(height, eb)), "chain": cname, "eb": eb,
+							"height": height.to_string(), "real": real.to_string(), "spec": own.to_string()}));
+					}
+					if real < (1u64 << 31) && height < (1u64 << 31) {
+						events.push(json!({"k": "Weight", "chain": cname, "base": base, "eb": eb, "height": height, "weight": real}));
+					}
+				}
+			}
+		}
+	}
+	n
+}
+
+fn one_chain(chain: ChainTypes, seed: u64, reps: usize, events: &mut Vec<Value>, mism: &mut Vec<Value>) -> (u64, u64, u64, u64) {
 	global::set_local_chain_type(chain);
 	let k = global::proofsize();
 	let cname = if chain == ChainTypes::Mainnet { "mainnet" } else { "automated" };
@@ -147,7 +230,17 @@ fn one_chain(chain: ChainTypes, seed: u64, reps: usize, events: &mut Vec<Value>,
 			}
 			// difficulty: a function of (packed nonces, edge_bits, height / scaling) only
 			if w as u8 >= global::base_edge_bits() && readable {
-				for (height, scaling) in [(0u64, 1u32), (1000, 7), (100_000, 1856)] {
+				let mut dh: Vec<(u64, u32)> = vec![(0u64, 1u32), (1000, 7), (100_000, 1856)];
+				if (29..=33).contains(&w) {
+					// across the first year's end and the 31 weeks of the 31-bit phase-out (GraphWeight)
+					const WEEK: u64 = 7 * 24 * 60;
+					const YEAR: u64 = 52 * WEEK;
+					dh.extend_from_slice(&[(YEAR - 1, 3), (YEAR, 3), (YEAR + WEEK - 1, 5), (YEAR + WEEK, 5), (YEAR + 29 * WEEK + 17, 9), (YEAR + 30 * WEEK - 1, 11), (YEAR + 30 * WEEK, 11), (YEAR + 31 * WEEK, 13), (u64::MAX - 1, 1)]);
+					for _ in 0..3 {
+						dh.push((YEAR + rng.gen_range(0, 31 * WEEK), rng.gen_range(1, 4000)));
+					}
+				}
+				for (height, scaling) in dh {
 					let mk = |pr: Proof| ProofOfWork { total_difficulty: Difficulty::from_num(rng_free(height)), secondary_scaling: scaling, nonce: height ^ 0x55, proof: pr };
 					let a = mk(p.clone());
 					let mut b = mk(p.clone());
@@ -175,7 +268,8 @@ fn one_chain(chain: ChainTypes, seed: u64, reps: usize, events: &mut Vec<Value>,
 			}
 		}
 	}
-	(checks, pads, diffs)
+	let wn = weights(cname, seed, events, mism);
+	(checks, pads, diffs, wn)
 }
 
 fn rng_free(h: u64) -> u64 {
@@ -205,6 +299,6 @@ pub fn ser(args: &Args) -> i32 {
 	let n = out.n;
 	out.finish();
 	println!("{}", json!({"events": n, "pack_checks": totals.iter().map(|t| t.0).sum::<u64>(), "padding_cases": totals.iter().map(|t| t.1).sum::<u64>(),
-		"difficulty_cases": totals.iter().map(|t| t.2).sum::<u64>(), "mismatches": all_m}));
+		"difficulty_cases": totals.iter().map(|t| t.2).sum::<u64>(), "weight_cases": totals.iter().map(|t| t.3).sum::<u64>(), "mismatches": all_m}));
 	0
 }
